@@ -232,73 +232,108 @@ def f_r4_order(schema: Schema, rep: Report):
 
 
 def f_r5_counting(schema: Schema, rep: Report):
-    rep.rule("F-R5", "validate_args applies the at-most-one predicate (count <= 1) to cls.optionalMutexes and the exactly-one predicate (count == 1) to cls.requiredMutexes; the count is the number of group members whose keyword value is not None; a failing predicate raises")
+    rep.rule("F-R5", "validate_args (helpers and predicates inlined): for every group of cls.optionalMutexes it raises exactly when more than one member is supplied, for every group of cls.requiredMutexes exactly when the number supplied is not one; `supplied` = the keyword value is not None; decided by the path conditions between the loop over the groups and the raise")
+    from . import paths as PT
+    from .flat import flat
+    import re as _re
+
     p = schema.p
     rel = p.module(BASE).relpath
-    fn = p.get_function(BASE, "Aggregate.validate_args").node
-    inner = [s for s in own_statements(fn) if isinstance(s, ast.FunctionDef)]
-    if not inner:
-        raise AnalysisError("F-R5: validate_args has no counting helper")
-    helper = inner[0]
-    hparams = params_of(helper)
-    calls = [n for n in own_nodes(fn) if isinstance(n, ast.Call) and isinstance(n.func, ast.Name) and n.func.id == helper.name]
-    seen = {}
-    for c in calls:
-        bound = {}
-        for i, a in enumerate(c.args):
-            if i < len(hparams):
-                bound[hparams[i]] = a
-        for k in c.keywords:
-            if k.arg:
-                bound[k.arg] = k.value
-        mx = bound.get("mutexes")
-        pred = bound.get("predicate")
-        if mx is None or pred is None:
-            raise AnalysisError("F-R5: counting helper call without mutexes/predicate")
-        which = mx.attr if isinstance(mx, ast.Attribute) else None
-        if isinstance(pred, ast.Lambda) and len(pred.args.args) == 1:
-            x = pred.args.args[0].arg
-            body = text(pred.body)
-            kind = "at-most-one" if body in (f"{x} <= 1", f"{x} < 2", f"{x} in (0, 1)") else ("exactly-one" if body in (f"{x} == 1", f"1 == {x}") else f"other:{body}")
+    fn0 = p.get_function(BASE, "Aggregate.validate_args").node
+    fn = flat(p, BASE, fn0, schema.aggregate, depth=3)
+    ex = Expander(fn)
+    kwname = fn0.args.kwarg.arg if fn0.args.kwarg else None
+    cls = params_of(fn0)[0]
+    pths = PT.enumerate_paths(fn, expander=ex)
+    cfg = pths.cfg
+    found = {}
+    for loop in [n for n in cfg.nodes if n.kind == "loop" and hasattr(n.stmt, "iter")]:
+        it = ex.t(loop.stmt.iter)
+        m = _re.fullmatch(rf"{cls}\.(optionalMutexes|requiredMutexes)", it)
+        if not m:
+            continue
+        which = m.group(1)
+        group = loop.stmt.target.id if isinstance(loop.stmt.target, ast.Name) else None
+        # outcomes of one iteration: raise, or back to the loop head / onwards
+        seg = []  # (conds since loop head, outcome)
+        for pth in pths:
+            if loop.id not in pth.marks:
+                continue
+            lo = pth.marks[loop.id]
+            # conditions of this loop's (first) iteration only: stop where the path leaves the loop statement
+            hi = len(pth.conds)
+            for j in cfg.nodes:
+                if j.stmt is loop.stmt and j.kind == "join" and j.label in ("after-loop", "loop-else") and j.id in pth.marks:
+                    hi = min(hi, pth.marks[j.id])
+            conds = pth.conds[lo:hi]
+            # cut at the first return to the loop (conditions of later loops do not belong here)
+            raised = pth.outcome == "raise" and any(cfg.nodes[i].stmt is not None and _inside(cfg.nodes[i].stmt, loop.stmt) for i in pth.nodes[-2:])
+            seg.append((conds, "raise" if raised else "continue"))
+        atoms = set()
+        for conds, _ in seg:
+            for c, _w in conds:
+                atoms |= c.atoms()
+        cnt_atoms = [a for a in atoms if _re.search(r"sum\(\[.* is None for \w+ in \w+\]\)|sum\(\[.* for \w+ in \w+\]\)|sum\(\(", a) or "len([" in a]
+        if not cnt_atoms:
+            rep.note(f"F-R5 undecided for {which}: no count predicate recognised among {sorted(atoms)[:4]}")
+            continue
+        a = cnt_atoms[0]
+        # the counted expression
+        cm = _re.search(r"sum\(\[(.*) for (\w+) in (\w+)\]\)", a)
+        counted_ok = False
+        if cm:
+            elt, var, grp = cm.groups()
+            elt_n = _re.sub(rf"\b{var}\b", "m", elt)
+            counted_ok = elt_n in (f"{kwname}.get(m, None) is not None", f"{kwname}.get(m) is not None", f"{kwname}[m] is not None") and grp == group
+            if not counted_ok:
+                rep.check("F-R5", f"validate_args:{which}:counts-supplied-members", False, f"the group count is sum([{elt} for {var} in {grp}]); expected the members of the group whose value in {kwname} is not None", f"{rel}:{loop.stmt.lineno}")
+                continue
         else:
-            kind = f"other:{ast.unparse(pred)}"
-        seen[which] = (kind, c)
-    for which, want in (("optionalMutexes", "at-most-one"), ("requiredMutexes", "exactly-one")):
-        got = seen.get(which)
-        ok = got is not None and got[0] == want
-        rep.check("F-R5", f"validate_args:{which}-predicate", ok, f"{which} is checked with predicate {got[0] if got else 'nothing'}; expected {want}" if not ok else "", f"{rel}:{got[1].lineno if got else fn.lineno}")
-        if got is not None:
-            kwarg = next((k.value for k in got[1].keywords if k.arg == "kwargs"), got[1].args[1] if len(got[1].args) > 1 else None)
-            ok = kwarg is not None and fn.args.kwarg is not None and text(kwarg) == fn.args.kwarg.arg
-            rep.check("F-R5", f"validate_args:{which}-counts-own-kwargs", ok, "the helper is not given the constructor's keyword arguments" if not ok else "", f"{rel}:{got[1].lineno}")
-    # the helper
-    hx = Expander(helper)
-    hcfg = CFG(helper)
-    loopsn = [n for n in hcfg.nodes if n.kind == "loop" and text(n.stmt.iter) == "mutexes"]
-    if not loopsn:
-        rep.check("F-R5", "enforce_count:loops-over-groups", False, "helper does not iterate over every group", f"{rel}:{helper.lineno}")
-        return
-    g = loopsn[0].stmt.target.id if isinstance(loopsn[0].stmt.target, ast.Name) else "?"
-    tests = [n for n in hcfg.nodes if n.kind == "test" and text(norm(n.stmt.test)).startswith("not predicate(")]
-    ok = False
-    got = None
-    for t in tests:
-        arg = norm(t.stmt.test).operand.args[0]
-        got = hx.t(arg)
-        accepted = set()
-        for m in ("m", "x", "k", "name", "attr"):
-            for getter in (f"kwargs.get({m}, None)", f"kwargs.get({m})"):
-                accepted.add(f"sum([{getter} is not None for {m} in {g}])")
-                accepted.add(f"sum(({getter} is not None for {m} in {g}))")
-                accepted.add(f"len([{m} for {m} in {g} if {getter} is not None])")
-        # normalise the comprehension variable
-        import re
+            rep.note(f"F-R5 undecided for {which}: count expression `{a}` not understood")
+            continue
+        rep.check("F-R5", f"validate_args:{which}:counts-supplied-members", True, "", f"{rel}:{loop.stmt.lineno}")
+        cexpr = cm.group(0)
+        kind = None
+        forms = {f"1 < {cexpr}": ("at-most-one", False), f"{cexpr} < 2": ("at-most-one", True), f"1 == {cexpr}": ("exactly-one", True), f"{cexpr} == 1": ("exactly-one", True),
+                 f"{cexpr} in (0, 1)": ("at-most-one", True)}
+        if a not in forms:
+            rep.check("F-R5", f"validate_args:{which}-predicate", False, f"{which} is checked with `{a.replace(cexpr, 'count')}`; expected {'count <= 1' if which == 'optionalMutexes' else 'count == 1'}", f"{rel}:{loop.stmt.lineno}")
+            continue
+        kind, ok_when = forms[a]
+        want = "at-most-one" if which == "optionalMutexes" else "exactly-one"
+        problems = []
+        if kind != want:
+            problems.append(f"{which} is checked with the {kind} predicate; expected {want}")
+        for val in (True, False):
+            outs = set()
+            for conds, outcome in seg:
+                consistent = True
+                mentioned = False
+                for c, w in conds:
+                    if c.atoms() == {a}:
+                        mentioned = True
+                        if c.ev({a: val}) != w:
+                            consistent = False
+                if consistent and mentioned:
+                    outs.add(outcome)
+            accept = (val == ok_when)
+            if accept and "raise" in outs:
+                problems.append("a group that satisfies the predicate still raises")
+            if not accept and outs - {"raise"}:
+                problems.append("a group that violates the predicate does not raise on every path")
+            if not accept and not outs:
+                problems.append("no path raises for a violating group")
+        found[which] = True
+        rep.check("F-R5", f"validate_args:{which}-predicate", not problems, "; ".join(problems), f"{rel}:{loop.stmt.lineno}")
+    for which in ("optionalMutexes", "requiredMutexes"):
+        if which not in found and not any(o.rule == "F-R5" and which in o.construct for o in rep.obligations):
+            # is the list read at all?
+            reads = [n for n in ast.walk(fn) if isinstance(n, ast.Attribute) and n.attr == which]
+            if not reads:
+                rep.check("F-R5", f"validate_args:{which}-predicate", False, f"{which} is never checked", f"{rel}:{fn0.lineno}")
+            else:
+                rep.note(f"F-R5 undecided: {which} is read but the counting loop was not recognised")
 
-        gotn = got
-        mvar = re.search(r"for (\w+) in " + re.escape(g), got or "")
-        if mvar:
-            gotn = re.sub(r"\b%s\b" % re.escape(mvar.group(1)), "m", got)
-        if gotn in accepted:
-            always = hcfg.exit.id not in hcfg.reachable([x for x in hcfg.nodes if x.kind == "join" and x.stmt is t.stmt and x.label == "then"][0].id, blocked=[loopsn[0].id])
-            ok = always
-    rep.check("F-R5", "enforce_count:count-and-raise", ok, f"count is {got}; expected the number of group members whose kwargs value is not None, and a raise whenever the predicate fails" if not ok else "", f"{rel}:{helper.lineno}")
+
+def _inside(node, container) -> bool:
+    return any(x is node for x in ast.walk(container))
